@@ -91,6 +91,15 @@ open FloatText in
 theorem bits_decode_canonical (bits : Nat) (neg : Bool) (d : Mag) (h : ofBits bits = .fin neg d) : Canon d :=
   ofBits_canon bits neg d h
 
+open FloatText in
+/-- **the value the model hands out for a decimal token is the one correctly rounded double**: `readDecTok` computes a
+    candidate by integer division and hands it out only after the certificate `Canon d ∧ RoundsTo … d` evaluated to true,
+    and no other double passes that certificate -/
+theorem value_handed_out_is_the_correct_reading (t : Dec) (bits : Nat) (h : readDecTok t = .bits bits) :
+    ∃ d, bits = toBits t.neg d ∧ Canon d ∧ RoundsTo t.frac.1 t.frac.2 d ∧
+      ∀ d', Canon d' → RoundsTo t.frac.1 t.frac.2 d' → d' = d :=
+  readDecTok_bits t bits h
+
 /-! non-vacuity: `1e+23` is exactly half-way between two doubles and is read as the one with the even significand
     (0x44B52D02C7E14AF6), not as its neighbour; `0.1` is read as 0x3FB999999999999A -/
 set_option exponentiation.threshold 2000 in
